@@ -1,10 +1,12 @@
 import KadDHT.Driver.Common
 import KadDHT.Driver.C18
 import KadDHT.Driver.C18v
+import KadDHT.Driver.C19
 open KadDHT.Driver
 
 def main (args : List String) : IO UInt32 := do
   match args with
   | ["C18"] => runPure C18.handle; return 0
   | ["C18v"] => runPure C18v.handle; return 0
+  | ["C19"] => runLoop C19.step {}; return 0
   | _ => IO.eprintln s!"unknown model {args}"; return 2
